@@ -72,15 +72,16 @@ pub fn e1_jobs(prop: &str, tier: Tier) -> (Vec<E1Job>, usize) {
     let pf = |d| E1Job { profile: Profile::F, depth: d, alt_map: false };
     let pdj = |d| E1Job { profile: Profile::DJ, depth: d, alt_map: false };
     let pz = |m, d| E1Job { profile: Profile::Z { inner_max: m }, depth: d, alt_map: false };
+    let ped = |d| E1Job { profile: Profile::ED, depth: d, alt_map: false };
     let pn = |d| E1Job { profile: Profile::N, depth: d, alt_map: false };
     let pill = |d| E1Job { profile: Profile::Ill, depth: d, alt_map: false };
     let fam = if q { 64 } else { 400 };
     let jobs = match prop {
-        "C01" | "C05" => if q { vec![pa(3), E1Job { profile: Profile::A { times: vec![1, 3, 5] }, depth: 3, alt_map: true }, pbs(4), pc(6), pd(4), pdj(5), pe(1, true, 2), paj(4), pa15(4), E1Job { profile: Profile::S, depth: 2, alt_map: false }] } else { vec![pa15(4), pb(4), pc(8), pc3(9), paj(5), paj5(4), pd(5), pe(2, true, 2), pe(1, false, 3), pa(4), E1Job { profile: Profile::S, depth: 3, alt_map: false }] },
+        "C01" | "C05" => if q { vec![pa(3), E1Job { profile: Profile::A { times: vec![1, 3, 5] }, depth: 3, alt_map: true }, pbs(4), pc(6), pd(4), pdj(5), pe(1, true, 2), paj(4), pa15(4), ped(3), E1Job { profile: Profile::S, depth: 2, alt_map: false }] } else { vec![pa15(4), pb(4), pc(8), pc3(9), paj(5), paj5(4), pd(5), pe(2, true, 2), pe(1, false, 3), pa(4), E1Job { profile: Profile::S, depth: 3, alt_map: false }] },
         "C02" => if q { vec![pb(3), pbs(4), pbj(4), pd(5), pdj(4)] } else { vec![pb(4), pbs(5), pbj(5), pd(6), pdj(5)] },
         "C03" => if q { vec![pd(5), pdj(5), pf(4), pe(1, true, 2)] } else { vec![pd(6), pdj(6), pf(5), pe(2, true, 2)] },
         "C04" => if q { vec![pa1(3), pbs(3), pc(6), paj(4), pd(4), pe(1, true, 2), pf(4), E1Job { profile: Profile::S, depth: 2, alt_map: false }, pc3(8)] } else { vec![pa(3), pbs(4), pc(8), pd(5), pe(2, true, 2), pf(5)] },
-        "C07" => if q { vec![pe(1, true, 2), pe(2, true, 1), pe(1, false, 3)] } else { vec![pe(2, true, 2), pe(1, true, 3)] },
+        "C07" => if q { vec![pe(1, true, 2), pe(2, true, 1), pe(1, false, 3), ped(4)] } else { vec![pe(2, true, 2), pe(1, true, 3), ped(5)] },
         "C10" => if q { vec![pa(3), pb(3), pbs(4), pbj(4), pc(6), pd(6), pdj(5), paj(4), pa15(4)] } else { vec![pa(3), pa1(4), pb(4), pbs(5), pc(8), pd(7)] },
         "C12" => if q { vec![pf(4)] } else { vec![pf(6)] },
         "C13" => if q { vec![pf(5), pe(1, true, 2), pe(2, true, 1), paj(3), E1Job { profile: Profile::S, depth: 3, alt_map: false }] } else { vec![pf(5), pe(2, true, 2), E1Job { profile: Profile::S, depth: 3, alt_map: false }] },
